@@ -92,10 +92,9 @@ impl BedModel {
 }
 
 fn gen_bed(w: &World) -> (Vec<BedModel>, usize) {
-    let n = w.small(0, 5);
     let k = w.small(0, 9) as usize;
-    let mut v = vec![];
-    for _ in 0..n {
+    let mut v: Vec<BedModel> = vec![];
+    while w.more(v.len() as u64, 5) {
         let chrom = gen_field(w, 0, 6, true);
         let start = gen_u64(w);
         let end = gen_u64(w);
@@ -177,20 +176,21 @@ fn gen_attr_string(w: &World, d: Dialect, is_key: bool) -> String {
 }
 
 fn gen_gff(w: &World, d: Dialect) -> Vec<GffModel> {
-    let n = w.small(0, 4);
-    let mut v = vec![];
-    for _ in 0..n {
-        let nkeys = w.small(0, 4) as usize;
+    let mut v: Vec<GffModel> = vec![];
+    while w.more(v.len() as u64, 4) {
         let mut attrs: Vec<(String, Vec<String>)> = vec![];
-        for _ in 0..nkeys {
+        while w.more(attrs.len() as u64, 4) {
             let mut key = gen_attr_string(w, d, true);
             while attrs.iter().any(|(k, _)| *k == key) {
                 key.push('2');
             }
-            let nv = 1 + w.small(0, 2);
-            let vals = (0..nv).map(|_| gen_attr_string(w, d, false)).collect();
+            let mut vals = vec![gen_attr_string(w, d, false)];
+            while w.more(vals.len() as u64, 3) && w.chance(1, 2) {
+                vals.push(gen_attr_string(w, d, false));
+            }
             attrs.push((key, vals));
         }
+        let nkeys = attrs.len();
         // hash iteration order: a permutation of the keys, drawn by the simulator
         let mut order: Vec<usize> = (0..nkeys).collect();
         for i in 0..nkeys {
